@@ -170,20 +170,12 @@ pub fn code_rest(push_state: &mut PushState, _instruction_cache: &InstructionCac
 /// popping the argument).
 pub fn code_cons(push_state: &mut PushState, _instruction_cache: &InstructionCache) {
     if let Some(pv) = push_state.code_stack.pop_vec(2) {
-        let mut consblock = PushStack::new();
-        for i in (0..2).rev() {
-            match &pv[i] {
-                Item::Literal { push_type: _ } => {
-                    consblock.push(pv[i].clone());
-                }
-                Item::List { items: a } => {
-                    if let Some(vec) = a.copy_vec(a.size()) {
-                        consblock.push_vec(vec)
-                    }
-                }
-                _ => (),
-            }
-        }
+        // pv[1]: top item, coerced to a list; pv[0]: second item, becomes its first element
+        let mut consblock = match &pv[1] {
+            Item::List { items } => items.clone(),
+            atom => PushStack::from_vec(vec![atom.clone()]),
+        };
+        consblock.push(pv[0].clone());
         push_state.code_stack.push(Item::List { items: consblock });
     }
 }
